@@ -101,7 +101,7 @@ func staticClass(text string) map[string]bool {
 func isAlpha(b byte) bool { return 'a' <= b && b <= 'z' || 'A' <= b && b <= 'Z' }
 
 // textClass: K17 = a '<' not followed by a letter, '/'+letter, '!--' or '!doctype';
-// K01 = a comment that is not closed by a plain '-->' ('--!>', '<!-->', '<!--->').
+// K01 = an abruptly closed comment ('<!-->', '<!--->'; '--!>' was K01 too until 359780f).
 func textClasses(s string) (out []string) {
 	for i := 0; i < len(s); i++ {
 		if s[i] != '<' {
@@ -120,11 +120,6 @@ func textClasses(s string) (out []string) {
 		case strings.HasPrefix(rest, "!--"):
 			body := rest[3:]
 			if strings.HasPrefix(body, ">") || strings.HasPrefix(body, "->") {
-				out = append(out, "K01")
-			}
-			end := strings.Index(body, "-->")
-			bang := strings.Index(body, "--!>")
-			if bang >= 0 && (end < 0 || bang < end) {
 				out = append(out, "K01")
 			}
 		case len(rest) >= 8 && strings.EqualFold(rest[:8], "!doctype"):
